@@ -186,9 +186,16 @@ pub fn exercise(c: &Case, rec: &mut Rec) -> Result<(), String> {
                             }
                             e.verif_ram_page_mut(page)[0x10..0x16].copy_from_slice(&[0xCD, 0x56, 0x05, 0xF3, 0x18, 0xFE]);
                             mach::set_regs(&mut e, &RegFile { pc: 0x8010, sp: 0xBF00, ix: 0xC000, de: 0x0100, af: 0xFF01, iy: 0x5C3A, im: 1, ..Default::default() });
-                            match mach::run_to(&mut e, &[0x8013], 6) {
-                                Ok(_) => {}
-                                Err(x) => r = Err(x),
+                            // several requests in a row (a block abandoned early, then the next one)
+                            for (a, de) in [(0xFFu16, 0x0100u16), (0x00, 0x0011), (0xFF, 0x0002), (0x00, 0x0000)] {
+                                mach::set_regs(&mut e, &RegFile { pc: 0x8010, sp: 0xBF00, ix: 0xC000, de, af: (a << 8) | 1, iy: 0x5C3A, im: 1, ..Default::default() });
+                                match mach::run_to(&mut e, &[0x8013], 6) {
+                                    Ok(_) => {}
+                                    Err(x) => {
+                                        r = Err(x);
+                                        break;
+                                    }
+                                }
                             }
                             let _ = e.rewind_tape();
                             e.play_tape();
@@ -460,6 +467,15 @@ pub fn szx_chunks_strategy() -> impl Strategy<Value = Case> {
             3 => proptest::collection::vec(any::<u8>(), 0..=64),
             2 => (0usize..9).prop_map(|k| vec![0u8; [0, 1, 2, 3, 4, 8, 36, 37, 40][k]]),
             1 => proptest::collection::vec(prop_oneof![Just(0u8), Just(1), Just(0xFF), any::<u8>()], 16384 + 3..=16384 + 3),
+            // stored page bodies a few bytes around the page size (header 3 + 16384 +- 4)
+            2 => (0usize..9, 0u8..8).prop_map(|(k, page)| { let mut v = vec![0x5Au8; 16383 + k]; v[0] = 0; v[1] = 0; v[2] = page; v }),
+            // zlib pages inflating to 16383 / 16384 / 16385 / 0 / 70000 bytes
+            2 => (0usize..5, 0u8..8).prop_map(|(k, page)| {
+                let n = [16383usize, 16384, 16385, 0, 70000][k];
+                let mut v = vec![1u8, 0, page];
+                v.extend_from_slice(&szx::zlib(&vec![0xC3u8; n]));
+                v
+            }),
             1 => proptest::collection::vec(any::<u8>(), 100..=300),
         ],
         // declared size: exact, or adversarial
